@@ -9,6 +9,7 @@ import AnonModel.Driver.OpsProver
 import AnonModel.Driver.OpsStore
 import AnonModel.Driver.OpsTails
 import AnonModel.Driver.OpsWire
+import AnonModel.Driver.OpsWireReq
 import AnonModel.Driver.OpsIssue
 import AnonModel.Driver.OpsMeets
 import AnonModel.Model.Ident
@@ -72,6 +73,9 @@ def step (j : Json) : Json :=
     | some r => r
     | none =>
     match stepMeets op j with
+    | some r => r
+    | none =>
+    match stepWireReq op j with
     | some r => r
     | none => badOp
 
